@@ -5,9 +5,20 @@ import json
 import sys
 
 pid, wt = sys.argv[1], sys.argv[2]
+round2 = len(sys.argv) > 3 and sys.argv[3] == '2'
 p = [json.loads(l) for l in open('/verif/properties.jsonl') if l.strip()]
 p = [x for x in p if x['id'] == pid][0]
 mech = '\n'.join('  - %s (%s)' % (m['name'], m['where']) for m in p['anchors'].get('mechanism', []))
+ROUND2 = ''
+if round2:
+    ROUND2 = """ROUND 2: an earlier round has already produced the most direct changes inside the functions named above (flipped comparison operators,
+dropped guards and swapped statements in the anchored functions themselves). Aim elsewhere this time, for example: (i) a helper, constant,
+table, default argument, macro, typedef or integer width that the anchored code depends on; (ii) the OTHER implementation of the same interface
+(the memory vs. file variant, the ostream vs. char* overload, the group path vs. the top-level path, the batch path vs. the single path, the
+acceptor vs. initiator branch); (iii) two cooperating sites that each still look right on their own; (iv) an initialisation, configuration,
+reset or teardown path; (v) state that survives from one call to the next. A change whose faulty behaviour is carried by DATA FLOW (a value
+computed in one place and trusted in another) is more interesting than one more changed condition.
+"""
 print(f"""You are helping to evaluate a verification effort for the open-source C++ FIX protocol engine fix8. Your job is to play
 the role of a developer who introduces a subtle regression. You work ONLY inside the scratch git worktree {wt}
 (a checkout of the fix8 repository, already configured and fully built in-tree with autotools; its 31 unit tests pass).
@@ -37,7 +48,7 @@ compiler/ - never tests, schemas, generated files or build files), each of which
      a wrong operator, a dropped guard, a changed order of two statements, a mis-merged condition, a wrong variable of the same type,
      a cache that is not invalidated... not gratuitous sabotage, no dead code, no comments that give it away. Keep each change small
      (typically 1-15 lines). The two changes should use different mechanisms and preferably different functions/sites.
-For each change also write a DEMONSTRATION: a small stand-alone C++ program (or gtest-free test) plus a shell script that builds
+{ROUND2}For each change also write a DEMONSTRATION: a small stand-alone C++ program (or gtest-free test) plus a shell script that builds
 and runs it against the worktree's own build, which exits 0 on the unmodified code and exits non-zero (printing what went wrong)
 with your change applied. You must actually run it both ways and confirm.
 
